@@ -183,6 +183,11 @@ func GenUniverse(rt *rapid.T, maxDefs int) *am.Universe {
 		}
 		d.Packed = rapid.IntRange(0, 4).Draw(rt, "dpacked") == 0
 		k := rapid.IntRange(0, 4).Draw(rt, "dfields")
+		if rapid.IntRange(0, 9).Draw(rt, "dwide") == 0 {
+			// a wide body (real code has structs with dozens of fields; whatever is cut off, memoised or
+			// pre-sized at 8 or 16 fields shows here)
+			k = rapid.IntRange(15, 24).Draw(rt, "dfieldswide")
+		}
 		for j := 0; j < k; j++ {
 			// fields must be sized: an identified struct by value only if it is not (transitively) itself → use pointers for named refs.
 			f := elemOK(rt, u, 2, "field")
